@@ -137,7 +137,9 @@ Definition raw_from_templated (tsts : tsts_t) (raw : list raw_slice) (r : N * N)
     | None => Val [false]
     end).
 
-(** [legacy = true]: before the repair the empty edit list took the source-edit branch. *)
+(** [legacy = true]: the code before the two repairs — the empty edit list took the source-edit
+    branch (509ab8f) and the [CreateAfter] lower bound was an unchecked subtraction (133dede),
+    whose behaviour depends on the build ([wrapping]). *)
 Definition fix_slices (legacy wrapping within_only : bool) (tsts : tsts_t) (raw : list raw_slice)
            (f : lintfix) : outcome (list bool) :=
   match f_anchor f with
@@ -147,7 +149,9 @@ Definition fix_slices (legacy wrapping within_only : bool) (tsts : tsts_t) (raw 
       match f_type f with
       | CreateBefore => raw_from_templated tsts raw (tpl_start m - 1, tpl_start m + adj)
       | CreateAfter =>
-          bind (usize_sub wrapping site_create_after_underflow (tpl_stop m) adj) (fun lo =>
+          (* repaired (133dede): [end.saturating_sub(adjust_boundary)]; before: [end - adjust_boundary] *)
+          bind (if legacy then usize_sub wrapping site_create_after_underflow (tpl_stop m) adj
+                else Val (tpl_stop m - adj)) (fun lo =>
           raw_from_templated tsts raw (lo, tpl_stop m + 1))
       | Replace =>
           if src_start m =? src_stop m then Val []
